@@ -1,6 +1,7 @@
 package main
 
 import (
+	"os"
 	"fmt"
 	"go/token"
 	"go/types"
@@ -499,23 +500,30 @@ func c14PruneFilter(c *Ctx) {
 					queue = in
 				}
 			})
-			for _, r := range returnsOf(f) {
-				if len(r.Results) != 1 || !isNilConst(r.Results[0]) || queue == nil || dominatesInstr(queue, r.Ret) {
-					continue
-				}
-				bad := ""
-				for _, cj := range p.mustHoldAt(r.Ret) {
-					has := false
+			// judged at the queueing step itself, whatever the shape of the returns: what stands in front of it is nothing but
+			// "not closed", "encoded without error" and "not below the watermark" (possibly inside a boolean helper) — any other
+			// condition is a second reason to drop an entry while reporting success
+			if queue != nil {
+				var extra []string
+				for _, cj := range p.mustHoldAt(queue) {
 					for _, a := range cj.list() {
-						if !strings.HasPrefix(a, "!") && strings.Contains(a, sp.pat) {
-							has = true
+						core := strings.TrimPrefix(a, "!")
+						switch {
+						case strings.Contains(a, "closed"), strings.HasSuffix(core, "!= nil)"), strings.HasSuffix(core, "== nil)"):
+						case strings.HasPrefix(a, "!") && strings.Contains(a, sp.pat):
+						case strings.HasPrefix(a, "!") && strings.HasSuffix(core, " < "+wfTerm(sp.pat)+")") && !strings.ContainsAny(strings.TrimSuffix(core, " < "+wfTerm(sp.pat)+")"), "+-*/%"):
+							// the same comparison inside a helper, on the helper's own parameter
+						case !strings.HasPrefix(a, "!") && strings.HasSuffix(core, " >= "+wfTerm(sp.pat)+")") && !strings.ContainsAny(strings.TrimSuffix(core, " >= "+wfTerm(sp.pat)+")"), "+-*/%"):
+						case strings.Contains(a, "GetHeight() >= "+wfTerm(sp.pat)) && !strings.HasPrefix(a, "!"):
+						case !strings.ContainsAny(core, "<>=") || (strings.HasPrefix(core, "s.") && strings.HasSuffix(core, ")") && !strings.Contains(core, " ")):
+							// a boolean helper call atom: its inlined conditions are judged by the other cases
+						default:
+							extra = append(extra, a)
 						}
 					}
-					if !has {
-						bad = strings.Join(cj.list(), " ∧ ")
-					}
 				}
-				c.check(bad == "", "prune-filter-agreement", "SetWALEntry: dropped only below the watermark", p.Pos(posOf(r.Ret, f)), "an entry is discarded with success only under height < watermark", "SetWALEntry reports success without queueing the entry on a path that is not `height < prune watermark` ("+clip(bad, 220)+"): a flushed entry of a live height is silently missing from the log")
+				extra = uniq(extra)
+				c.check(len(extra) == 0, "prune-filter-agreement", "SetWALEntry: dropped only below the watermark", p.Pos(posOf(queue, f)), "an entry is queued unless the store is closed, the entry cannot be encoded, or its height is below the watermark", "SetWALEntry queues the entry only under a further condition ("+clip(strings.Join(extra, "; "), 220)+"): an entry of a live height is silently dropped while success is reported")
 			}
 		}
 	}
@@ -963,8 +971,10 @@ func c14ReplayOrderAndTemp(c *Ctx) {
 				}
 				if pk == "os" && (cal.Name() == "ReadFile" || cal.Name() == "Open" || cal.Name() == "OpenFile") && len(s.Args()) > 0 {
 					// OpenFile for writing the temp file is the writer's business
-					if cal.Name() == "OpenFile" && strings.Contains(qname(fn), "writePruneWatermark") {
-						continue
+					if cal.Name() == "OpenFile" && len(s.Args()) >= 2 {
+						if k, ok := s.Args()[1].(*ssa.Const); ok && k.Value != nil && k.Int64()&int64(os.O_WRONLY|os.O_RDWR|os.O_CREATE) != 0 {
+							continue // opened for writing: that is the writer creating the temp file
+						}
 					}
 					nRead++
 					tmp := false
@@ -1001,4 +1011,12 @@ func c14ReplayOrderAndTemp(c *Ctx) {
 	if nRead == 0 {
 		c.und("temp-never-read", "consensus/walstore", "", "no file read found in the store (watermark loader renamed?)")
 	}
+}
+
+// wfTerm: the watermark operand of a comparison pattern such as " < s.firstLiveHeight".
+func wfTerm(pat string) string {
+	if i := strings.LastIndex(pat, " "); i >= 0 {
+		return strings.TrimSuffix(pat[i+1:], ")")
+	}
+	return pat
 }
